@@ -92,6 +92,62 @@ fn fresh(files: &Files, filler: usize, dep: bool, dup: bool, one: bool) -> Analy
     host
 }
 
+/// The same workspace as `fresh`, delivered in two Changes the way a server may deliver it:
+/// `graph_first` - the package graph arrives with the roots of the first package only (the dependency is not on disk yet),
+///   the dependency's root and files follow without the graph being sent again;
+/// otherwise - roots and files first, the package graph alone afterwards.
+fn staged(files: &Files, filler: usize, dep: bool, dup: bool, one: bool, graph_first: bool) -> AnalysisHost {
+    let mut host = AnalysisHost::new();
+    if graph_first {
+        let mut c = Change::default();
+        c.change_file(FileId(0), "".into());
+        if let Some((_, t)) = files.first() {
+            c.change_file(FileId(MOD0), t.as_str().into());
+        }
+        let first: Files = files.iter().take(1).cloned().collect();
+        structural(&first, 0, &mut c, Some(dep), false, one);
+        host.apply_change(c);
+        let mut c = Change::default();
+        c.change_file(FileId(1), "".into());
+        for (i, (_, t)) in files.iter().enumerate().skip(1) {
+            c.change_file(FileId(MOD0 + i as u32), t.as_str().into());
+        }
+        for k in 0..filler {
+            c.change_file(FileId(100 + k as u32), format!("pub fn filler{k}(x) {{ x + {k} }}\n").as_str().into());
+        }
+        if dup {
+            c.change_file(FileId(DUP_TOML), "".into());
+            c.change_file(FileId(DUP_MOD), DUP_TEXT.into());
+        }
+        // roots only - unless the second dependency appears too (its graph node does not exist yet)
+        structural(files, filler, &mut c, if dup { Some(dep) } else { None }, dup, one);
+        host.apply_change(c);
+    } else {
+        let mut c = Change::default();
+        c.change_file(FileId(0), "".into());
+        c.change_file(FileId(1), "".into());
+        for (i, (_, t)) in files.iter().enumerate() {
+            c.change_file(FileId(MOD0 + i as u32), t.as_str().into());
+        }
+        for k in 0..filler {
+            c.change_file(FileId(100 + k as u32), format!("pub fn filler{k}(x) {{ x + {k} }}\n").as_str().into());
+        }
+        if dup {
+            c.change_file(FileId(DUP_TOML), "".into());
+            c.change_file(FileId(DUP_MOD), DUP_TEXT.into());
+        }
+        structural(files, filler, &mut c, None, dup, one);
+        host.apply_change(c);
+        // something is asked before the graph is there (memoised results that the graph must invalidate)
+        let _ = catch(|| host.snapshot().diagnostics(FileId(MOD0)));
+        let _ = catch(|| { let a = host.snapshot(); queries::file_query(&a, FILE_QUERIES[FILE_QUERIES.len() - 1], FileId(MOD0), files.first().map_or(0, |f| f.1.len())) });
+        let mut c = Change::default();
+        c.set_package_graph(graph(dep, dup && files.len() >= 2));
+        host.apply_change(c);
+    }
+    host
+}
+
 /// all answers of one host, in the given order of (file, query, offset) triples
 fn answers(host: &AnalysisHost, files: &Files, reverse: bool, filler: usize) -> Vec<(String, String)> {
     let a = host.snapshot();
@@ -224,6 +280,17 @@ fn main() {
                 if case["check_seed"].as_bool().unwrap_or(false) {
                     let f1 = answers(&fresh(&files, filler, dep, dup, one), &files, false, filler);
                     let f2 = answers(&fresh(&files, filler, dep, dup, one), &files, true, filler);
+                    // the same workspace delivered in stages (graph first / roots first) must answer like the one delivered at once
+                    for graph_first in [true, false] {
+                        let st = answers(&staged(&files, filler, dep, dup, one, graph_first), &files, false, filler);
+                        compared += st.len() as u64;
+                        if let Some(((k, a), (_, b))) = st.iter().zip(f1.iter()).find(|((_, a), (_, b))| a != b) {
+                            local.push(json!({"kind": "mismatch", "prop": "C11", "features": {"what": "workspace delivered in stages differs from fresh", "query": k.split('/').nth(1), "op": "seed",
+                                    "stage_order": if graph_first { "graph, then the dependency's root" } else { "roots and files, then the graph" },
+                                    "alpha_equivalent": alpha_types(a) == alpha_types(b), "import_cycle": import_cycle(&files)},
+                                "detail": {"case": case, "step": 0, "query": k, "staged": a.chars().take(400).collect::<String>(), "fresh": b.chars().take(400).collect::<String>()}}));
+                        }
+                    }
                     compared += warm.len() as u64;
                     steps += 1;
                     for (((k, a), (_, b)), (_, c2)) in warm.iter().zip(f1.iter()).zip(f2.iter()) {
